@@ -676,6 +676,13 @@ func genCase(t *rapid.T) Case {
 					if i == len(cp)-1 && i > 0 && rapid.Bool().Draw(t, "clashopt") {
 						cp[i].Optional = !cp[i].Optional
 					}
+					if i == len(cp)-1 && !cp[i].Optional && rapid.IntRange(0, 2).Draw(t, "clashtail") == 0 {
+						// ... followed by an optional last segment: the short form of the
+						// candidate ends in the clashing match-all
+						tail := seg("raw")
+						tail.Optional = true
+						cp = append(cp, tail)
+					}
 					d, m, found = model.Route{Segs: cp}, g.M, true
 				}
 			}
@@ -702,6 +709,11 @@ func genCase(t *rapid.T) Case {
 				prefix = append(prefix, rt.Reg{M: m, R: base.Source()})
 				cp := append([]model.Seg(nil), base.Segs...)
 				cp[1] = model.Seg{Elems: []model.Elem{{Params: []model.Param{{Name: "q", Value: "**", Blanks: 1}}}}}
+				if len(cp) == 2 && rapid.IntRange(0, 2).Draw(t, "clashtail2") == 0 {
+					tail := seg("raw")
+					tail.Optional = true
+					cp = append(cp, tail)
+				}
 				d = model.Route{Segs: cp}
 			}
 		}
